@@ -919,9 +919,14 @@ func (w *_assemblerRepr) AssignString(s string) error {
 				return (*_assembler)(w).AssignString(member)
 			}
 		}
+		// A member without a representation string of its own is represented by its name;
+		// the name of a member that does have one is not valid data at this level.
 		members := w.schemaType.(*schema.TypeEnum).Members()
 		for _, member := range members {
 			if s == member {
+				if _, mapped := stg[member]; mapped {
+					break
+				}
 				return (*_assembler)(w).AssignString(member)
 			}
 		}
